@@ -298,7 +298,7 @@ func (c *Ctx) buildFn() *ssa.Function {
 				}
 			}
 		})
-		if ranges && nLoc >= 3 && (best == nil || fn.Name() == "build") {
+		if ranges && nLoc >= 3 && (best == nil || baseName(fn) == "build") {
 			best = fn
 		}
 	}
